@@ -197,6 +197,15 @@ Section Api.
                           | _ => None end);
       ("AppendWith", fun args => match args with [AWith ws] => Some (ESelect (w ++ ws) c p)
                           | _ => None end);
+      (* the function arguments travel as what they return on this receiver (ENil: a nil function) *)
+      ("ApplyIf", fun args => match args with
+                              | [ABool cnd; AExp r] => Some (if cnd && negb (is_nil r) then r else ESelect w c p)
+                              | _ => None end);
+      ("ApplySelectJson", fun args => match args with
+                              | [AExp j] => ret (mkParts (p_distinct p) (p_distinctOn p) (Some j) (p_jsonAlias p) (p_list p) (p_from p)
+                                                   (p_where p) (p_gbDistinct p) (p_groupBys p) (p_having p) (p_orderBys p)
+                                                   (p_limit p) (p_offset p) (p_lock p))
+                              | _ => None end);
       ("Union", fun args => match args with [] => Some (ESelect w (c ++ [mkComb p "UNION" false]) empty_parts)
                           | _ => None end);
       ("Intersect", fun args => match args with [] => Some (ESelect w (c ++ [mkComb p "INTERSECT" false]) empty_parts)
@@ -296,7 +305,10 @@ Section Api.
                           | _ => None end);
       ("ReturningUpdateBuilder.As", fun args => match args with [AStr a] =>
         opt_bind (upd_last (fun x => (fst x, a)) (u_returning b)) (fun r => k (u_alias b) (u_set b) (u_from b) (u_where b) r)
-                          | _ => None end)
+                          | _ => None end);
+      ("ApplyIf", fun args => match args with
+                              | [ABool cnd; AExp r] => Some (if cnd && negb (is_nil r) then r else EUpdate b)
+                              | _ => None end)
     ].
 
   Definition del_handlers (b : delb exp) : list (string * (list aarg -> option exp)) :=
